@@ -71,31 +71,36 @@ func genApis(w io.Writer) {
 	defer os.RemoveAll(scratch)
 	os.Setenv("AQUA_DATADIR", scratch)
 	log.Root().SetHandler(log.DiscardHandler())
-	env, err := c18node.Start(c18node.Options{Dir: ""})
-	if err != nil {
-		c18die("cannot start a node: %v", err)
-	}
-	apis := env.Stack.VerifRPCAPIs()
 	type apiInfo struct {
 		api     rpc.API
 		methods []rpc.VerifMethod
 	}
-	var infos []apiInfo
 	var roots []cg.Root
 	seenRoot := map[cg.Root]bool{}
 	names := map[string]bool{}
-	for _, a := range apis {
-		ms := rpc.VerifSuitableCallbacks(a.Namespace, a.Service)
-		infos = append(infos, apiInfo{a, ms})
-		for _, m := range ms {
-			r := c18RootOf(m.Recv, m.GoName)
-			if !seenRoot[r] {
-				seenRoot[r] = true
-				roots = append(roots, r)
-			}
-			names[m.GoName] = true
+	collect := func(clique bool) []apiInfo {
+		env, err := c18node.Start(c18node.Options{Dir: "", Clique: clique})
+		if err != nil {
+			c18die("cannot start a node (clique=%v): %v", clique, err)
 		}
+		defer env.Stop()
+		var infos []apiInfo
+		for _, a := range env.Stack.VerifRPCAPIs() {
+			ms := rpc.VerifSuitableCallbacks(a.Namespace, a.Service)
+			infos = append(infos, apiInfo{a, ms})
+			for _, m := range ms {
+				r := c18RootOf(m.Recv, m.GoName)
+				if !seenRoot[r] {
+					seenRoot[r] = true
+					roots = append(roots, r)
+				}
+				names[m.GoName] = true
+			}
+		}
+		return infos
 	}
+	infos := collect(false)
+	infosClique := collect(true)
 	// the metadata service rpc.NewServer registers on every server
 	metaSrv := rpc.NewServer()
 	var metaMethods []rpc.VerifMethod
@@ -115,7 +120,6 @@ func genApis(w io.Writer) {
 	if metaRecv == nil {
 		c18die("rpc.NewServer registered no %q service", rpc.MetadataApi)
 	}
-	env.Stop()
 
 	res, err := cg.AnalyzeCached(repo, []string{cg.Module + "/aqua", cg.Module + "/node", cg.Module + "/internal/aquaapi", cg.Module + "/rpc"}, roots, "vta")
 	if err != nil {
@@ -166,15 +170,21 @@ func genApis(w io.Writer) {
 		}
 		fmt.Fprint(w, "]")
 	}
-	fmt.Fprintln(w, "(* node.startRPC's list: Node.apis() followed by every service's APIs(), in order *)")
-	fmt.Fprintln(w, "Definition gen_apis : list api := Eval vm_compute in [")
-	for i, inf := range infos {
-		if i > 0 {
-			fmt.Fprintln(w, ";")
+	writeList := func(name, what string, l []apiInfo) {
+		fmt.Fprintf(w, "(* node.startRPC's list (Node.apis() followed by every service's APIs(), in order) on %s *)\n", what)
+		fmt.Fprintf(w, "Definition %s : list api := Eval vm_compute in [\n", name)
+		for i, inf := range l {
+			if i > 0 {
+				fmt.Fprintln(w, ";")
+			}
+			writeApi(inf.api.Namespace, reflect.TypeOf(inf.api.Service), inf.api.Public, inf.methods)
 		}
-		writeApi(inf.api.Namespace, reflect.TypeOf(inf.api.Service), inf.api.Public, inf.methods)
+		fmt.Fprintln(w, "].")
+		fmt.Fprintln(w)
 	}
-	fmt.Fprintln(w, "].")
+	writeList("gen_apis", "a chain with the aquahash (proof-of-work) engine", infos)
+	writeList("gen_apis_clique", "a chain with the clique (proof-of-authority) engine, which adds the engine's own API", infosClique)
+	fmt.Fprintln(w, "Definition gen_api_sets : list (list api) := [gen_apis; gen_apis_clique].")
 	fmt.Fprintln(w)
 	fmt.Fprintln(w, "(* the service rpc.NewServer registers itself *)")
 	fmt.Fprintln(w, "Definition gen_meta_api : api := Eval vm_compute in")
@@ -194,6 +204,34 @@ func genApis(w io.Writer) {
 		fmt.Fprintln(w, l)
 	}
 	fmt.Fprintln(w, "*)")
+	fmt.Fprintln(w)
+
+	fmt.Fprintln(w, "(* for every method with m_signs = true: (namespace, wire name, receiver type, ALL keystore entry points reachable from it) *)")
+	fmt.Fprintln(w, "Definition gen_sign_targets : list (bytes * bytes * bytes * list bytes) := Eval vm_compute in [")
+	firstT := true
+	seenT := map[string]bool{}
+	for _, l := range [][]apiInfo{infos, infosClique} {
+		for _, inf := range l {
+			for _, m := range inf.methods {
+				r := c18RootOf(m.Recv, m.GoName)
+				key := inf.api.Namespace + "|" + m.Name + "|" + m.Recv.String()
+				if !res.Signs[r] || seenT[key] {
+					continue
+				}
+				seenT[key] = true
+				if !firstT {
+					fmt.Fprintln(w, ";")
+				}
+				firstT = false
+				var ts []string
+				for _, t := range res.Targets[r] {
+					ts = append(ts, c18Str(t))
+				}
+				fmt.Fprintf(w, "  (%s, %s, %s, [%s])", c18Str(inf.api.Namespace), c18Str(m.Name), c18Str(m.Recv.String()), strings.Join(ts, "; "))
+			}
+		}
+	}
+	fmt.Fprintln(w, "].")
 	fmt.Fprintln(w)
 
 	fmt.Fprintln(w, "(* runtime names (runtime.Frame.Function) of the functions containing a direct call of Server.RegisterName *)")
